@@ -2,6 +2,7 @@ package checks
 
 import (
 	"fmt"
+	"github.com/trustbloc/sidetree-go/pkg/versions/1_0/model"
 	"strings"
 
 	"verifharness/fw"
@@ -70,7 +71,7 @@ func c03Case(c *fw.Case) {
 	aoKind := "none"
 	switch r.Intn(4) {
 	case 3:
-		spec.AnchorOrigin, aoKind = fw.Pick(r, []interface{}{float64(1), true, false, []interface{}{"a", "b"}, []interface{}{}, map[string]interface{}{"k": "v"}, float64(r.Intn(50)), "1", "true", "x|y"}), "scalar-or-list"
+		spec.AnchorOrigin, aoKind = fw.Pick(r, []interface{}{float64(1), true, false, []interface{}{"a", "b"}, []interface{}{}, map[string]interface{}{"k": "v"}, float64(r.Intn(50)), "1", "true", "x|y", "", " ", "null"}), "scalar-or-list"
 	case 1:
 		spec.AnchorOrigin, aoKind = fmt.Sprintf("https://anchor%d.example", r.Intn(100)), "string"
 	case 2:
@@ -131,6 +132,33 @@ func c03Case(c *fw.Case) {
 		c.Failf("id-form", w, "ID %q is not namespace:suffix", op.ID)
 	}
 	c.Sample(map[string]interface{}{"request": string(b.Request), "did": op.ID})
+	// ... and by every route: parsed in batch mode, and as the anchored form the library itself derives from the parsed operation
+	{
+		c.Count("routes", 1)
+		c.Evals(3)
+		if bop, berr := st.Parser.ParseOperation(ns, b.Request, true); berr != nil || bop.UniqueSuffix != op.UniqueSuffix {
+			w["batch_mode"] = fmt.Sprint(bop, berr)
+			c.Failf("same-request-other-did-in-batch-mode", w, "the create request denotes another DID (or is refused) when parsed in batch mode: %v", berr)
+			return
+		}
+		internal, ierr := st.Parser.ParseOperation(ns, b.Request, false)
+		if ierr != nil || internal.UniqueSuffix != op.UniqueSuffix {
+			c.Failf("same-request-other-did-via-parse-operation", w, "ParseOperation and Parse disagree on the DID: %v", ierr)
+			return
+		}
+		if anch, aerr := model.GetAnchoredOperation(internal); aerr != nil {
+			w["err"] = aerr.Error()
+			c.Failf("anchored-form-error", w, "GetAnchoredOperation failed on an accepted create: %v", aerr)
+			return
+		} else {
+			re, rerr := st.Parser.ParseOperation(ns, anch.OperationRequest, true)
+			if anch.UniqueSuffix != op.UniqueSuffix || rerr != nil || re.UniqueSuffix != op.UniqueSuffix {
+				w["anchored_request"], w["anchored_suffix"], w["reparsed"] = string(anch.OperationRequest), anch.UniqueSuffix, fmt.Sprint(re, rerr)
+				c.Failf("anchored-form-denotes-other-did", w, "the anchored form of the create (suffix %s) or its re-parse denotes another DID than the request (%s)", anch.UniqueSuffix, op.UniqueSuffix)
+				return
+			}
+		}
+	}
 	// the same request denotes the same DID whatever the parser was asked in between: here a create it has to refuse because one
 	// of its hashes uses an algorithm that is not configured
 	{
